@@ -9,6 +9,13 @@ Two extractors:
                      to Lean 4 terms over BitVec (widths and signedness taken from the
                      AST's types, so C++ wrap-around is reproduced by construction).
 
+Site selectors (see AGENT_GUIDE.md) plus, added for C14: `for:N` (condition of the N-th for loop),
+`ptroff:N` (integer operand of the N-th `pointer + integer`, widened to 64 bits), `index:N` (byte offset
+of the N-th `p[i]`: index widened to 64 bits times sizeof(*p)); constructors are found by class name;
+`callarg:operator()#k.i` reaches arguments of functor calls; a pointer used as a truth value or compared
+with nullptr becomes a Bool parameter `<name>_nonnull`; `convertor(x)` / `(*convertor)(x)` becomes the
+application of a function parameter `convertor<width>`.
+
 Output files are only rewritten when their content changes (so lake does not rebuild
 for nothing).  Exit status 0 = everything translated; a site that cannot be found or
 uses a construct outside the supported subset is reported in Gen/Status.lean and in
